@@ -70,8 +70,7 @@ Section Spec.
     if is_self_closed n then io_self_close o
     else if no_value_part n then []
     else match split_by_lines (value_or_caret (an_value n)) with
-         | [_] => (if truthy_s (an_name n) || truthy_l (an_attrs n) then [c_space] else [])
-                  ++ val_text (value_or_caret (an_value n))
+         | [line] => (if truthy_s (an_name n) || truthy_l (an_attrs n) then [c_space] else []) ++ val_text line
          | _ => []
          end.
 
@@ -105,16 +104,12 @@ Section Spec.
     else (is_primary a || nolb (match aa_name a with Some x => x | None => [] end))
          && match aa_value a with Some v => toks_nolb v | None => true end.
 
-  (* a value is either free of line breaks or has more than one line *)
-  Definition value_wf (v : list vtok) : bool := toks_nolb v || negb (Nat.eqb (length (split_by_lines v)) 1).
-
   Fixpoint node_wf (n : anode) : bool :=
     match n with
     | ANode nm v _ at_ ch _ =>
         negb (is_snippet n)                               (* an element: it has a name or attributes *)
         && nolb (match nm with Some x => x | None => [] end)
         && forallb attr_wf (attrs_of n)
-        && value_wf (value_or_caret v)
         && forallb node_wf ch
     end.
 
@@ -317,6 +312,73 @@ Proof.
   rewrite split_by_lines_eq. pose proof (sbl_fold_pieces v [] [] (Forall_nil _) eq_refl) as G.
   destruct (fold_left sbl_step v ([], [])) as [res ln]. destruct G as [G1 G2].
   destruct ln; [assumption|]. apply Forall_app. split; [assumption|constructor; [assumption|constructor]].
+Qed.
+
+(* a value with exactly one line: no token has a second line; the line is the first line of every token *)
+Lemma sbl_step_single res ln t : tok_single t = true -> sbl_step (res, ln) t = (res, ln ++ [first_line t]).
+Proof.
+  destruct t as [s|i nm]; [|reflexivity]. cbn [tok_single sbl_step first_line].
+  destruct (splitlines s) as [|l0 [|l1 ls]]; try discriminate; reflexivity.
+Qed.
+Lemma sbl_fold_single : forall v res ln, forallb tok_single v = true ->
+  fold_left sbl_step v (res, ln) = (res, ln ++ map first_line v).
+Proof.
+  induction v as [|t v IH]; intros res ln H; cbn [fold_left map].
+  - rewrite app_nil_r. reflexivity.
+  - cbn [forallb] in H. apply andb_true_iff in H. destruct H as [Ht Hv].
+    rewrite (sbl_step_single _ _ _ Ht), (IH _ _ Hv), <- app_assoc. reflexivity.
+Qed.
+
+Lemma sbl_inner_grow : forall ls res ln,
+  let '(res', ln') := fold_left (fun '(res, ln) l => (res ++ [ln], [VStr l])) ls (res, ln) in
+  length res' = length res + length ls /\ (ln <> [] -> ln' <> []).
+Proof.
+  induction ls as [|l ls IH]; intros res ln; cbn [fold_left].
+  - split; [cbn [length]; lia|auto].
+  - specialize (IH (res ++ [ln]) [VStr l]). destruct (fold_left _ ls (res ++ [ln], [VStr l])) as [res' ln'].
+    destruct IH as [I1 I2]. rewrite app_length in I1. cbn [length] in *. split; [lia|]. intros _. apply I2. discriminate.
+Qed.
+
+Lemma sbl_step_grow res ln t :
+  let '(res', ln') := sbl_step (res, ln) t in
+  length res <= length res' /\ ln' <> [] /\ (tok_single t = false -> length res < length res').
+Proof.
+  destruct t as [s|i nm]; cbn [sbl_step tok_single].
+  - destruct (splitlines s) as [|l0 [|l1 ls]].
+    + repeat split; [lia|destruct ln; discriminate|discriminate].
+    + cbn [fold_left]. repeat split; [lia|destruct ln; discriminate|discriminate].
+    + pose proof (sbl_inner_grow (l1 :: ls) res (ln ++ [VStr l0])) as G.
+      destruct (fold_left _ (l1 :: ls) (res, ln ++ [VStr l0])) as [res' ln']. destruct G as [G1 G2].
+      cbn [length] in G1. repeat split; [lia|apply G2; destruct ln; discriminate|intros _; lia].
+  - repeat split; [lia|destruct ln; discriminate|discriminate].
+Qed.
+
+Lemma sbl_fold_grow : forall v res ln,
+  let '(res', ln') := fold_left sbl_step v (res, ln) in
+  length res <= length res' /\ (ln <> [] \/ v <> [] -> ln' <> [])
+  /\ (forallb tok_single v = false -> length res < length res').
+Proof.
+  induction v as [|t v IH]; intros res ln; cbn [fold_left].
+  - repeat split; [lia|intros [H|H]; [exact H|contradiction]|discriminate].
+  - pose proof (sbl_step_grow res ln t) as S. destruct (sbl_step (res, ln) t) as [res1 ln1]. destruct S as [S1 [S2 S3]].
+    specialize (IH res1 ln1). destruct (fold_left sbl_step v (res1, ln1)) as [res' ln']. destruct IH as [I1 [I2 I3]].
+    repeat split; [lia|intros _; apply I2; left; exact S2|].
+    cbn [forallb]. intros H. apply andb_false_iff in H. destruct H as [H|H]; [specialize (S3 H); lia|specialize (I3 H); lia].
+Qed.
+
+Lemma split_by_lines_one v line : split_by_lines v = [line] ->
+  forallb tok_single v = true /\ line = map first_line v.
+Proof.
+  intros E. rewrite split_by_lines_eq in E. destruct (forallb tok_single v) eqn:Hs.
+  - rewrite (sbl_fold_single v [] [] Hs) in E. cbn [app] in E. split; [reflexivity|].
+    destruct (map first_line v); [discriminate|]. injection E as <-. reflexivity.
+  - exfalso. pose proof (sbl_fold_grow v [] []) as G.
+    destruct (fold_left sbl_step v ([], [])) as [res' ln']. destruct G as [_ [G2 G3]].
+    specialize (G3 Hs). cbn [length] in G3.
+    assert (Hv : v <> []) by (destruct v; [discriminate|discriminate]).
+    specialize (G2 (or_intror Hv)).
+    destruct ln' as [|t0 ln']; [contradiction|]. apply (f_equal (@length _)) in E. rewrite app_length in E.
+    cbn [length] in E. lia.
 Qed.
 
 (* nested induction over trees *)
@@ -528,21 +590,19 @@ Section Proofs.
   Proof. reflexivity. Qed.
 
   Lemma push_value_spec node st (d : nat) :
-    value_wf (value_or_caret (an_value node)) = true ->
     is_self_closed node = false ->
     lvl st = Z.of_nat d ->
     appends st (push_value c o node st) (inline_value o node ++ emit (text_lines c o (S d) node)).
   Proof.
-    intros Hw Hs HL. rewrite push_value_eq. unfold inline_value, text_lines. rewrite Hs. cbn [orb].
+    intros Hs HL. rewrite push_value_eq. unfold inline_value, text_lines. rewrite Hs. cbn [orb].
     destruct (no_value_part node); [apply appends_refl|]. cbv zeta.
     set (value := value_or_caret (an_value node)) in *.
     pose proof (split_by_lines_pieces value) as Hp.
-    unfold value_wf in Hw.
     destruct (split_by_lines value) as [|l1 [|l2 ls]] eqn:E.
     - apply (text_block_spec [] _ st d); [constructor|exact HL].
-    - cbn [length Nat.eqb negb] in Hw. rewrite orb_false_r in Hw.
+    - destruct (split_by_lines_one value l1 E) as [Hsingle ->].
       unfold emit. cbn [map concat]. rewrite app_nil_r.
-      eapply appends_trans; [|apply appends_push_tokens, Hw].
+      eapply appends_trans; [|apply appends_push_tokens_single, Hsingle].
       destruct (truthy_s (an_name node) || truthy_l (an_attrs node)); [apply appends_push_raw|apply appends_refl].
     - apply (text_block_spec (l1 :: l2 :: ls) _ st d); [exact Hp|exact HL].
   Qed.
@@ -590,7 +650,6 @@ Section Proofs.
     node_wf n = negb (is_snippet n)
                 && nolb (match an_name n with Some x => x | None => [] end)
                 && forallb attr_wf (attrs_of n)
-                && value_wf (value_or_caret (an_value n))
                 && forallb node_wf (an_children n).
   Proof. destruct n; reflexivity. Qed.
 
@@ -676,7 +735,6 @@ Section Proofs.
     destruct Hkids as [Hkok Hkwf].
     rewrite node_wf_eq in Hwf.
     apply andb_true_iff in Hwf. destruct Hwf as [Hwf _].
-    apply andb_true_iff in Hwf. destruct Hwf as [Hwf Hval].
     apply andb_true_iff in Hwf. destruct Hwf as [Hwf Hattrs].
     apply andb_true_iff in Hwf. destruct Hwf as [Hsnip Hname].
     apply negb_true_iff in Hsnip.
@@ -708,7 +766,7 @@ Section Proofs.
         rewrite app_nil_r. destruct Ho_parts as [_ [_ [_ [_ [_ [_ Hsc]]]]]].
         destruct (io_self_close o) eqn:Esc; [apply appends_refl|]. rewrite <- Esc in *. apply appends_push_str, Hsc.
       - rewrite emit_app, app_assoc.
-        pose proof (push_value_spec n st3 d Hval Es L3) as A.
+        pose proof (push_value_spec n st3 d Es L3) as A.
         eapply appends_trans; [exact A|]. change (an_children n) with ch.
         apply kids_spec; [exact Hkok|exact Hkwf|]. destruct A as [_ A]. rewrite A. exact L3. }
     pose proof (appends_trans _ _ _ _ _ A23 A4) as A.
